@@ -280,6 +280,21 @@ func (st *clientState) exec(op Op) (r OpResult) {
 	case "Status":
 		stt := mgr.Status()
 		r.Status = &stt
+	case "ListConverters":
+		for _, c := range mgr.ListConverters() {
+			r.Names = append(r.Names, fmt.Sprintf("%s:%d:%d", c.Name, c.CachedStreamCount, len(c.Processes)))
+		}
+	case "ListTags":
+		r.Tags = mgr.ListTags()
+	case "KnownPcaps":
+		for _, k := range mgr.KnownPcaps() {
+			r.Names = append(r.Names, k.Filename)
+		}
+	case "ListEndpoints":
+		for _, e := range mgr.ListPcapOverIPEndpoints() {
+			r.Names = append(r.Names, e.Address)
+		}
+		r.Names = append(r.Names, mgr.ListPcapProcessorWebhooks()...)
 	case "SetConfig":
 		r.Err = errStr(mgr.SetConfig(manager.Config{AutoInsertLimitToQuery: op.On}))
 	case "AddWebhook":
